@@ -49,6 +49,13 @@ def add_metabolite(model: Model, drug_dvid: int = 1, presystemic: bool = False) 
     >>> model = add_metabolite(model)
 
     """
+    odes = get_and_check_odes(model)
+    if odes.find_compartment("METABOLITE") is not None:
+        # NOTE: The model already has a metabolite compartment
+        if presystemic and not has_presystemic_metabolite(model):
+            raise ValueError("Cannot convert a plain metabolite into a pre-systemic metabolite.")
+        return model
+
     if presystemic:
         odes = get_and_check_odes(model)
         depot = odes.find_depot(model.statements)
